@@ -12,12 +12,12 @@ git -C /repo worktree add -q --detach "$base/repo" HEAD || exit 2
 mkdir -p "$base/verif"
 rsync -a --exclude target --exclude .git --exclude replays --exclude evidence /verif/ "$base/verif/"
 mkdir -p "$base/verif/evidence"
-cp -r /verif/harness/target "$base/verif/harness/target"
+cp -a /verif/harness/target "$base/verif/harness/target"
 sed -i "s#\"/repo/src#\"$base/repo/src#g" "$base/verif/harness/src/main.rs"
 for id in "$@"; do
   out=$(cd "$base/verif" && timeout 3600 bin/check "$id" "$tier" 2>&1); code=$?
   echo "--- [iso] $name vs $id ($tier): exit=$code"
-  echo "$out" | grep -E "^VIOLATION|signature:|KNOWN-FINDING|MACHINERY|BUILD FAILED|^error" | cut -c1-240 | sort | uniq -c | sort -rn | head -12
+  echo "$out" | grep -E "^VIOLATION|signature:|detail:|KNOWN-FINDING|MACHINERY|BUILD FAILED|^error" | cut -c1-240 | sort | uniq -c | sort -rn | head -12
 done
 git -C /repo worktree remove --force "$base/repo"
 rm -rf "$base"
